@@ -35,7 +35,7 @@ def state_mutators(F):
                      "<core::cell::RefCell>::take", "<core::cell::RefCell>::replace_with"):
                 P = P or prov.Prov(F, fn.body)
                 if any(o[0] == "field" and o[1] == THUNK and o[2] == "state" for o in P.origins_op(t["xs"][0])):
-                    out.add(fn.q)
+                    out |= cg.known_owners(F, fn.q)
     return out
 
 
@@ -430,14 +430,14 @@ def rule_r7(F, rep):
 
 
 def run(F, rep, tier):
-    rule_r1(F, rep)
-    rule_r2(F, rep)
-    rule_r3(F, rep)
+    rep.attempt(rule_r1, F, rep)
+    rep.attempt(rule_r2, F, rep)
+    rep.attempt(rule_r3, F, rep)
     from . import objflags
-    objflags.rule(F, rep, "C11.R4")
-    rule_r5(F, rep)
-    rule_r6(F, rep)
-    rule_r7(F, rep)
+    rep.attempt(objflags.rule, F, rep, "C11.R4")
+    rep.attempt(rule_r5, F, rep)
+    rep.attempt(rule_r6, F, rep)
+    rep.attempt(rule_r7, F, rep)
     rep.assume("order-independence of values in general and collections between requests (C03) are not decided; "
                "the interner and arena are append-only and their order is unobservable (C05.R4)")
     return EXPLANATION
